@@ -179,6 +179,17 @@ def r15_4(run):
             run.ob('R15.4', hs, a, 'await-all completion is re-evaluated after %s changes' % s, ok_all, slot='recheck:%s' % s,
                    message='after adding to %s the "all attempts finished" test is never evaluated: if this event was the last '
                            'outstanding one the wait never completes' % s)
+    # the counting test len(failed)+len(confirmed) == len(attempted) is only meaningful while
+    # confirmed is a subset of attempted: a confirmation is recorded only for an attempted directory
+    for n in g.real_nodes():
+        for a in node_asts(n):
+            if is_mut(a) == 'add:confirmed_uploads':
+                key = src(a.args[0]) if a.args else ''
+                gd = g.guarded_by(n, lambda t: isinstance(t, ast.Compare) and isinstance(t.ops[0], ast.In) and dotted(t.comparators[0]) == 'attempted_uploads'
+                                  and src(t.left) == key)
+                run.ob('R15.4', hs, a, 'a confirmation is counted only for an attempted directory (confirmed is a subset of attempted)', any(lab == 'T' for _, lab in gd),
+                       slot='confirmed-subset', message='confirmed_uploads can receive a directory that is not in attempted_uploads: the await-all '
+                       'count test becomes true while an attempted upload is still outstanding')
     # failure only when every attempt failed; success needs at least one confirmation
     errs = [n for n in g.real_nodes() for a in node_asts(n) if is_mut(a) == 'uploaded.errback']
     for n in errs:
